@@ -168,7 +168,7 @@ def load_known(prop):
 
 
 def _hyp_settings(n, steps=None, shrink=True):
-    from hypothesis import HealthCheck, Phase, settings
+    from hypothesis import HealthCheck, Phase, Verbosity, settings
 
     kw = dict(
         max_examples=max(1, n),
@@ -178,6 +178,7 @@ def _hyp_settings(n, steps=None, shrink=True):
         report_multiple_bugs=False,
         suppress_health_check=list(HealthCheck),
         print_blob=False,
+        verbosity=Verbosity.quiet,
         phases=[Phase.generate, Phase.shrink] if shrink else [Phase.generate],
     )
     if steps is not None:
